@@ -12,6 +12,28 @@ def run(ctx, theorems, plan, level, explanation, extra_cov=None, assumptions=(),
     discharged = common.proof_audit(ctx, theorems)
     for b in getattr(ctx, 'proof_broken', []):
         ctx.violation('proof obligation broken: ' + b, {'broken': b}, no_input=True)
+    st = explore(ctx, plan, post)
+    cov = {
+        'evaluations': st['ncases'], 'distinct_nontrivial': len(st['distinct']),
+        'rule': 'one evaluation = one (generated scanner, input, read schedule, buffer size, script) case run on '
+                'the real scanner (ASan+UBSan build) and on the Lean abstract scanner with table matcher and '
+                'with specification matcher; distinct+non-trivial = distinct (scanner seed, case) with >= 4 trace events',
+        'samples': st['samples'] or [{'note': 'no passing case'}],
+        'obligations': len(theorems), 'discharged': discharged,
+        'checker_cmd': 'lake build FlexVerif fvdriver; #print axioms via tools/fv/common.py',
+        'trusted_base': common.TRUSTED_BASE,
+        'traces_validated_against_impl': st['ncases'] - st['nviol'], 'trace_events': st['events'],
+        'build_status_counts': st['stats'], 'family_counts': st['fam_stats'], 'feature_counts': st['feat'],
+        'explanation': explanation,
+    }
+    if extra_cov:
+        cov.update(extra_cov)
+    return common.finish(ctx, level, cov, list(assumptions))
+
+
+def explore(ctx, plan, post=None):
+    """run the families of `plan` on the real scanner and the model; every difference is recorded as a violation with
+    its input.  Also used by checks whose own exploration cannot exhibit a failing input for a broken obligation."""
     results = rtcheck.run_families(ctx, ctx.prop.lower(), plan)
     stats = {}
     fam_stats = {}
@@ -75,19 +97,5 @@ def run(ctx, theorems, plan, level, explanation, extra_cov=None, assumptions=(),
                                  'real_stderr': c.get('real_err'), 'd_model': c['d_model'], 'd_spec': c['d_spec']})
     if post:
         post(ctx, results)
-    cov = {
-        'evaluations': ncases, 'distinct_nontrivial': len(distinct),
-        'rule': 'one evaluation = one (generated scanner, input, read schedule, buffer size, script) case run on '
-                'the real scanner (ASan+UBSan build) and on the Lean abstract scanner with table matcher and '
-                'with specification matcher; distinct+non-trivial = distinct (scanner seed, case) with >= 4 trace events',
-        'samples': samples or [{'note': 'no passing case'}],
-        'obligations': len(theorems), 'discharged': discharged,
-        'checker_cmd': 'lake build FlexVerif fvdriver; #print axioms via tools/fv/common.py',
-        'trusted_base': common.TRUSTED_BASE,
-        'traces_validated_against_impl': ncases - nviol, 'trace_events': events,
-        'build_status_counts': stats, 'family_counts': fam_stats, 'feature_counts': feat,
-        'explanation': explanation,
-    }
-    if extra_cov:
-        cov.update(extra_cov)
-    return common.finish(ctx, level, cov, list(assumptions))
+    return {'ncases': ncases, 'distinct': distinct, 'samples': samples, 'nviol': nviol, 'events': events, 'stats': stats,
+            'fam_stats': fam_stats, 'feat': feat}
